@@ -381,7 +381,8 @@ REGISTRY = {
         'theorems': ['PP.C18.merge_spec', 'PP.C18.explicit_none_is_a_value', 'PP.C18.set_changes_given', 'PP.C18.set_nothing',
                      'PP.C18.after_sets', 'PP.C18.entry_points', 'PP.C18.signatures_agree', 'PP.C18.shipped_defaults'],
         'modules': ['PP.Model.Config', 'PP.Generated', 'PP.Props.C18'],
-        'sections': [{'name': 'entry-points', 'run': simple_sec('sec_config', 'config_section')}],
+        'sections': [{'name': 'entry-points', 'run': simple_sec('sec_config', 'config_section')},
+                     {'name': 'long-histories', 'run': simple_sec('sec_config', 'history_section')}],
         'rule': 'set_default_config sequences x explicit/defaulted settings x six entry points',
     },
     'C16': {
@@ -424,7 +425,7 @@ REGISTRY = {
                      'PP.C07.datetime_date_only', 'PP.C07.chainmap_shortcut', 'PP.C07.deque_maxlen', 'PP.C04.sound_pformat', 'PP.C07.printer_inventory',
                      'PP.C07.output_reads_back', 'PP.C07.utc_denotes', 'PP.C07.enum_denotes', 'PP.C07.date_denotes', 'PP.C07.time_inRd',
                      'PP.C07.datetime_inRd', 'PP.C07.timezone_inRd', 'PP.C07.deque_inRd', 'PP.C07.deque_denotes', 'PP.C07.chainmap_inRd',
-                     'PP.C07.oneArg_inRd', 'PP.C07.defaultdict_inRd', 'PP.C07.isNumTok_intLit'],
+                     'PP.C07.oneArg_inRd', 'PP.C07.defaultdict_inRd', 'PP.C07.isNumTok_intLit', 'PP.C07.path_denotes'],
         'modules': VALUE_MODULES + ['PP.Model.Std', 'PP.Props.C07', 'PP.Generated', 'PP.Props.PrinterInventory', 'PP.Props.C04', 'PP.Props.C07b'],
         'sections': [{'name': 'stdlib', 'run': simple_sec('sec_stdlib', 'stdlib_section')},
                      {'name': 'reader', 'run': values_sec('reader_section', mode='c07')},
